@@ -333,6 +333,10 @@ def _is_multiplicity(rhs, pname, fn=None):
         return False
     while r.get("k") == "cast":
         r = ir.unwrap(r["e"])
+    if fn is not None:
+        r = _const_local_init(fn, r)  # `const auto occurrences = ...; given_ += occurrences;`
+        while isinstance(r, dict) and r.get("k") == "cast":
+            r = ir.unwrap(r["e"])
     s = fmt(r)
     if s in ("%s.as_short_list().count(short_name())" % pname, "%s.as_short_list().count(short_)" % pname):
         return True
@@ -501,6 +505,18 @@ def _membership_literals(prog, c, pname, depth=0):
     of a /repo helper whose whole body is one of these over its own parameters: the literals of the constant table T"""
     if not isinstance(c, dict) or depth > 2:
         return None
+    # a helper that was spliced into the function under analysis left its parameter behind as a local bound to the word: the closure inside
+    # still calls it by the parameter's name
+    if _SCOPE and depth == 0:
+        more = set()
+        for _, _, e0 in _SCOPE[0].roots():
+            x0 = e0["expr"]
+            if x0.get("k") == "decl":
+                for v0 in x0.get("vars", []):
+                    i0 = ir.unwrap(v0.get("init")) if v0.get("init") is not None else None
+                    if isinstance(i0, dict) and i0.get("k") == "ref" and fmt(i0) in names and (v0.get("type") or "").startswith("const "):
+                        more |= {v0["name"], v0["name"].split("@")[0]}
+        names = names | more
     while c.get("k") == "cast":
         c = ir.unwrap(c["e"])
     bo = ir.as_binop(c)
@@ -529,7 +545,16 @@ def _membership_literals(prog, c, pname, depth=0):
         if not (b2 and b2[0] == "=="):
             return None
         sides = {fmt(ir.unwrap(b2[1])), fmt(ir.unwrap(b2[2]))}
-        if len(sides) != 2 or body.params[0]["name"] not in sides or not (sides - {body.params[0]["name"]}) <= names:
+        other = sides - {body.params[0]["name"]}
+        if len(sides) == 2 and body.params[0]["name"] in sides and not other <= names and _SCOPE:
+            # the closure of a helper that was spliced into the function under analysis still calls the word by the helper's parameter name:
+            # a by-reference capture whose name no longer exists in the enclosing function, where the word is the function's only text parameter
+            caps = [c0.get("var") for c0 in lam.get("captures", []) if c0.get("byref")]
+            scope_names = {p0.get("name") for p0 in _SCOPE[0].params} | {v0["name"] for _, _, e0 in _SCOPE[0].roots() if e0["expr"].get("k") == "decl" for v0 in e0["expr"].get("vars", [])}
+            text_params = [p0.get("name") for p0 in _SCOPE[0].params if "string" in (p0.get("type") or "")]
+            if len(caps) == 1 and other == {caps[0]} and caps[0] not in scope_names and text_params and set(text_params) <= names:
+                other = set()
+        if len(sides) != 2 or body.params[0]["name"] not in sides or not other <= names:
             return None
         return _table_of(args[0], args[1])
     # a helper of the repository: substitute its parameters
